@@ -78,7 +78,7 @@ def check(ctx, src):
     v1, c1 = boolfn.equivalent(gs, gn, AT, lambda e: e["G"] and e["S"])
     v2, c2 = boolfn.equivalent(os_, gn, AT, lambda e: (not e["G"]) and e["S"])
     bound = all(len(o.args) >= 2 and norm(o.args[1]) == "compiler.scope" for o in os_) and bool(os_)
-    ctx.decide("OUTERVAR-RESOLVE", f"{R}|compile_global_or_nonlocal|node", None if v1 is None or v2 is None else (v1 and v2 and bound),
+    ctx.decide_tt("OUTERVAR-RESOLVE", f"{R}|compile_global_or_nonlocal|node", None if v1 is None or v2 is None else (v1 and v2 and bound),
                "`global` must always give ast.Global, `nonlocal` an OuterVar bound to the declaring scope", R, gn.lineno, detail="Global if root == 'global' else OuterVar(scope)")
     nm = pyq.contains(gn, lambda n: isinstance(n, ast.Assign) and norm(n) == "names = [mangle(s) for s in syms]")
     ctx.check(nm is not None, "OUTERVAR-RESOLVE", f"{R}|compile_global_or_nonlocal|names", "declared names are not mangled in declaration order", R, gn.lineno, detail="[mangle(s) for s in syms]")
